@@ -4,6 +4,7 @@ import (
 	"encoding/json"
 	"fmt"
 	"os"
+	"runtime/pprof"
 	"strconv"
 	"strings"
 	"testing"
@@ -82,6 +83,9 @@ func TestWorker(t *testing.T) {
 		deadline = time.Now().Add(time.Duration(sec) * time.Second)
 	}
 	res := exploreScenario(t, scn, bound, shard, nshards, deadline, os.Getenv("VERIF_NOPRUNE") != "")
+	if os.Getenv("VERIF_DEBUG_LEAK") != "" {
+		pprof.Lookup("goroutine").WriteTo(os.Stderr, 1)
+	}
 	if out := os.Getenv("VERIF_OUT"); out != "" {
 		writeJSON(out, res)
 	} else {
